@@ -116,7 +116,7 @@ def for_special(I, it, st, env):
     def run_body(I2, key):
         e2 = Env(env.module, env, env.funcdef, env.frame_id)
         tmp = SDict()
-        I2.heap_log.append(("alloc-dict", id(tmp), None, "<for-each-insert>"))
+        I2.heap_log.append(("alloc-dict", I2.heap_log.note(tmp), None, "<for-each-insert>"))
         e2.vars[target] = tmp
         bind(e2, key)
         I2.exec_block(st.body, e2)
@@ -175,5 +175,5 @@ def dict_comprehension(I, it, node, g, env):
         run_body(I, SName(kw))
         raise PathAbort()
     d = SDict(base=LazyBase(member_fn, run_body, f"dictcomp@{node.lineno}"))
-    I.heap_log.append(("alloc-dict", id(d), None, I.where()))
+    I.heap_log.append(("alloc-dict", I.heap_log.note(d), None, I.where()))
     return d
